@@ -224,9 +224,9 @@ example : ((callsH trapCfg 3 { ps := PS.init trapSrc, heap := [] }).1.map fun r 
 (`X: [d, 2]`) was decoded -/
 example : ((callsH aliasCfg 2 { ps := PS.init aliasSrc, heap := aliasHeap }).1.map fun r =>
       match r.1 with
-      | .ok t => some (viewMap r.2 t.header, viewMap (callsH aliasCfg 2 { ps := PS.init aliasSrc, heap := aliasHeap }).2.heap t.header)
-      | _ => none) =
-    [some ([([88], [[100], [49]])], [([88], [[100], [49]])]), some ([([88], [[100], [50]])], [([88], [[100], [50]])])] := by decide
+      | .ok t => viewMap (callsH aliasCfg 2 { ps := PS.init aliasSrc, heap := aliasHeap }).2.heap t.header
+      | _ => []) =
+    [[([88], [[100], [49]])], [([88], [[100], [50]])]] := by decide
 
 /-! ### the code before fixes 84aa239 and c9e79da, and what was wrong with it -/
 
